@@ -100,6 +100,12 @@ def analyse(ctx, want_prefix: str):
     for node, chain, kf, rev, guard in paths:
         iwhere = core.loc(COMPACT, node)
         desc = f"`{core.src(node.value)}`" + (f" (when {guard})" if guard else "")
+
+        def resolve_helper(name: str):
+            for n_ in ctx.sources.tree(COMPACT).body:
+                if isinstance(n_, ast.FunctionDef) and n_.name == name:
+                    return n_
+            return None
         if "?" in chain:
             ob("C08.0", f"{Q}: working list {desc} covers the same cells as the argument", core.UNDECIDED, iwhere,
                "initialisation is not a chain of sorted/set/list over the parameter")
@@ -111,7 +117,7 @@ def analyse(ctx, want_prefix: str):
         dedup = any(o in ("set", "frozenset") for o in chain)
         first_set = min([i for i, o in enumerate(chain) if o in ("set", "frozenset")], default=len(chain))
         is_sorted = "sorted" in chain and chain.index("sorted") < first_set
-        if not dedup and not is_sorted and guard_means_strictly_ascending(guard, st.param):
+        if not dedup and not is_sorted and guard_means_strictly_ascending(guard, st.param, resolve_helper):
             # the guard establishes: strictly ascending in plain numeric order (hence duplicate-free), no key function
             ob("C09.1", f"{Q}: working list {desc} is duplicate-free and in ascending numeric order", core.DISCHARGED, iwhere,
                "the guard requires every element to be smaller than its successor")
